@@ -437,6 +437,12 @@ def run_server(spec):
         cmd += ["--group", str(spec["group"])]
     if spec.get("initgroups"):
         cmd += ["--initgroups"]
+    conf = os.path.join(d, "conf.py")
+    if spec.get("badhup"):
+        # a configuration file that is valid at start and invalid when HUP re-reads it
+        with open(conf, "w") as f:
+            f.write("timeout = 30\n")
+        cmd += ["-c", conf]
     cmd += ["privsapp:app"]
     env = dict(os.environ, PYTHONPATH=REPO, VERIF_PRIVS_LOG=log, PYTHONDONTWRITEBYTECODE="1")
     p = subprocess.Popen(cmd, cwd=d, env=env, stdout=subprocess.DEVNULL, stderr=subprocess.DEVNULL)
@@ -468,9 +474,30 @@ def run_server(spec):
             wait_for(lambda: first[0] not in children(p.pid))
             snap("respawn", exclude=first)
             before = set(children(p.pid))
-            os.kill(p.pid, signal.SIGHUP)
-            wait_for(lambda: len(set(children(p.pid)) - before) >= nw and not (set(children(p.pid)) & before), 20)
-            snap("hup", exclude=before)
+            if spec.get("badhup"):
+                with open(conf, "w") as f:
+                    f.write("timeout = 'thirty'\n")
+                os.kill(p.pid, signal.SIGHUP)
+                # whatever the master does about the error: a worker it starts from now on has the configured identity
+                t_end = time.time() + 4.0
+                seen = set()
+                while time.time() < t_end:
+                    for c in children(p.pid):
+                        if c not in before and c not in seen:
+                            time.sleep(0.4)
+                            st = proc_status(c)
+                            if st:
+                                seen.add(c)
+                                obs["gens"].append({"kind": "hup", "pid": c, "status": st})
+                                obs["master"].append(proc_status(p.pid))
+                    if p.poll() is not None:
+                        break
+                    time.sleep(0.1)
+                obs["badhup_master_exit"] = p.poll()
+            else:
+                os.kill(p.pid, signal.SIGHUP)
+                wait_for(lambda: len(set(children(p.pid)) - before) >= nw and not (set(children(p.pid)) & before), 20)
+                snap("hup", exclude=before)
     finally:
         if p.poll() is None:
             p.terminate()
